@@ -64,12 +64,16 @@ def dotted(node):
 
 
 class Tr:
-    def __init__(self, known, defaults):
+    def __init__(self, known, defaults, attr=None, names=None, monadic=None):
         self.known = known          # translated function names
         self.defaults = defaults    # default values of omitted trailing args, per function
         self.pre = []               # hoisted monadic bindings of the statement being translated
         self.fresh = 0
         self.listvars = set()
+        # the maps from source names to Gallina terms are per property (other properties pass their own)
+        self.attr = ATTR if attr is None else attr
+        self.names = NAMES if names is None else names
+        self.monadic = MONADIC if monadic is None else monadic
 
     # ---------------------------------------------------------------- expressions
     def num(self, v):
@@ -91,11 +95,11 @@ class Tr:
                 return 'None'
             return self.num(n.value)
         if isinstance(n, ast.Name):
-            return NAMES.get(n.id, n.id)
+            return self.names.get(n.id, n.id)
         if isinstance(n, ast.Attribute):
             d = dotted(n)
-            if d in ATTR:
-                return ATTR[d]
+            if d in self.attr:
+                return self.attr[d]
             raise Unsupported(f'attribute {d}')
         if isinstance(n, ast.Tuple):
             if all(isinstance(x, ast.Constant) and x.value is None for x in n.elts):
@@ -126,10 +130,10 @@ class Tr:
                 # int(a / b): float division then truncation toward zero; ceil(a / b): ceiling of the quotient.
                 # Exact for integer operands below 2^53 (trusted base).
                 return f'(Z.quot {a} {b})' if f == 'int' else f'(cdiv {a} {b})'
-            if f in MONADIC:
+            if f in self.monadic:
                 self.fresh += 1
                 v = f'm{self.fresh}'
-                self.pre.append((v, f'{MONADIC[f]} ' + ' '.join(self.e(a) for a in n.args)))
+                self.pre.append((v, f'{self.monadic[f]} ' + ' '.join(self.e(a) for a in n.args)))
                 return v
             if f in self.known:
                 args = [self.e(a) for a in n.args] + self.defaults.get(f, [])[len(n.args):]
